@@ -40,11 +40,22 @@ func pathUnder(p, q string) bool {
 	return strings.HasPrefix(q, p+"/")
 }
 
-func (k *simKernel) findContaining(path string) *kmnt {
+// isRootIn: m hangs below no other entry of the table
+func (k *simKernel) isRootIn(m *kmnt) bool {
+	for i := range k.mnts {
+		if k.mnts[i].ID == m.Parent && k.mnts[i].ID != m.ID {
+			return false
+		}
+	}
+	return true
+}
+
+// startOf: the root mount containing the path (longest mountpoint, last among equals)
+func (k *simKernel) startOf(path string) *kmnt {
 	var best *kmnt
 	for i := range k.mnts {
 		m := &k.mnts[i]
-		if pathUnder(m.Mp, path) {
+		if k.isRootIn(m) && pathUnder(m.Mp, path) {
 			if best == nil || len(best.Mp) <= len(m.Mp) {
 				best = m
 			}
@@ -53,13 +64,80 @@ func (k *simKernel) findContaining(path string) *kmnt {
 	return best
 }
 
-func (k *simKernel) topmostAt(mp string) *kmnt {
-	for i := len(k.mnts) - 1; i >= 0; i-- {
-		if k.mnts[i].Mp == mp {
-			return &k.mnts[i]
+// stepFrom: one step of the lookup from mount c towards path: a mount stacked on c's own
+// root (the last attached), otherwise the child whose mountpoint comes first on the way
+// (the shortest, the last attached among equals)
+func (k *simKernel) stepFrom(c *kmnt, path string) *kmnt {
+	var stacked *kmnt
+	for i := range k.mnts {
+		x := &k.mnts[i]
+		if x.Parent == c.ID && x.ID != c.ID && x.Mp == c.Mp {
+			stacked = x
 		}
 	}
+	if stacked != nil {
+		return stacked
+	}
+	var best *kmnt
+	for i := range k.mnts {
+		x := &k.mnts[i]
+		if x.Parent == c.ID && x.ID != c.ID && pathUnder(c.Mp, x.Mp) && pathUnder(x.Mp, path) {
+			if best == nil || len(x.Mp) <= len(best.Mp) {
+				best = x
+			}
+		}
+	}
+	return best
+}
+
+// resolve: the mount a lookup of path ends in (Kernel.resolve of the Lean model: walk from
+// the root mount, at most len(mnts) steps)
+func (k *simKernel) resolve(path string) *kmnt {
+	c := k.startOf(path)
+	if c == nil {
+		return nil
+	}
+	for fuel := len(k.mnts); fuel > 0; fuel-- {
+		n := k.stepFrom(c, path)
+		if n == nil {
+			return c
+		}
+		c = n
+	}
+	return c
+}
+
+// mountedAt: mp is a mountpoint and can be reached
+func (k *simKernel) mountedAt(mp string) *kmnt {
+	m := k.resolve(mp)
+	if m != nil && m.Mp == mp {
+		return m
+	}
 	return nil
+}
+
+// isBelow: c hangs (directly or further down) below the mount with id top
+func isBelow(mnts []kmnt, top int, c kmnt) bool {
+	for fuel := len(mnts); fuel > 0; fuel-- {
+		if c.ID == top {
+			return false
+		}
+		if c.Parent == top {
+			return true
+		}
+		found := false
+		for _, x := range mnts {
+			if x.ID == c.Parent && x.ID != c.ID {
+				c = x
+				found = true
+				break
+			}
+		}
+		if !found {
+			return false
+		}
+	}
+	return false
 }
 
 func relTail(base, path string) string {
@@ -87,7 +165,7 @@ func joinRoot(root, tail string) string {
 
 func (k *simKernel) add(m kmnt) {
 	parent := 0
-	if p := k.findContaining(m.Mp); p != nil {
+	if p := k.resolve(m.Mp); p != nil {
 		parent = p.ID
 	}
 	m.ID = k.nextID
@@ -134,24 +212,25 @@ func (k *simKernel) mount(src, tgt, fstype string, flags uintptr, data string) e
 	k.syslog = append(k.syslog, []interface{}{"mount", hx(src), hx(tgt), hx(fstype), float64(flags), hx(data)})
 	f := int(flags)
 	if f&msRemount != 0 || (f/131072)%16 != 0 {
-		if k.topmostAt(tgt) == nil {
+		if k.mountedAt(tgt) == nil {
 			return errors.New("EINVAL")
 		}
 		return nil
 	}
 	if f&msBind != 0 {
-		m := k.findContaining(src)
+		m := k.resolve(src)
 		if m == nil {
 			return errors.New("ENODEV")
 		}
 		snapshot := append([]kmnt(nil), k.mnts...)
+		top := m.ID
 		b := *m
 		b.Root = joinRoot(m.Root, relTail(m.Mp, src))
 		b.Mp = tgt
 		k.add(b)
 		if f&msRec != 0 {
 			for _, c := range snapshot {
-				if pathUnder(src, c.Mp) && c.Mp != src {
+				if isBelow(snapshot, top, c) && pathUnder(src, c.Mp) && c.Mp != src {
 					cc := c
 					cc.Mp = joinRoot(tgt, relTail(src, c.Mp))
 					k.add(cc)
@@ -187,7 +266,7 @@ func (k *simKernel) mount(src, tgt, fstype string, flags uintptr, data string) e
 
 func (k *simKernel) umount(tgt string, flags int) error {
 	k.syslog = append(k.syslog, []interface{}{"umount", hx(tgt), float64(flags)})
-	m := k.topmostAt(tgt)
+	m := k.mountedAt(tgt)
 	if m == nil {
 		return errors.New("EINVAL")
 	}
